@@ -1,8 +1,304 @@
-(* C18 - placeholder while the machinery is being assembled *)
-From Coq Require Import ZArith List Bool.
+(* C18 - Colour specifications round-trip and degrade to the nearest colour.
+   Only statements here; every proof is [exact <lemma>] into Proofs/Colours*.v.
+
+   The tables, the bit masks, int_scale, _value_lookup_table, the numeric cores of _parse_color_* /
+   _color_desc_* / _true_to_256, AttrSpec.colors and the flag/number properties are regenerated from
+   urwid/display/common.py on every run (Gen/colours_gen.v); AttrSpec.__init__ / __set_foreground /
+   __set_background / foreground / background / get_rgb_values are the hand model Model/Colours.v,
+   tied to the implementation by the exhaustive correspondence of harness/props/c18.py.
+
+   Vocabulary.  A description string is a [desc] (its lexical class and the integer it carries,
+   Base/ColourBase.v); a foreground is a list of [part]s (settings and colours, any order).
+   [wf_desc md d] states what the lexer can produce: a basic colour index is below 16, three hex
+   characters are below 0x1000, six hex characters below 2^24 (and, at 2^24 colours, a three-character
+   cube value is not negative).  No other bound is assumed: the integers carried by 'hN', 'gN', 'g#XX'
+   are arbitrary. *)
+From Coq Require Import ZArith List Bool Permutation Lia.
 Import ListNotations.
-From Urwid Require Import PyBase PyList ColourBase colours_gen Colours.
+From Urwid Require Import PyBase PyList ColourBase colours_gen Colours
+     ColoursTables ColoursBits ColoursSpec ColoursRound ColoursMore ColoursRgb.
 Open Scope Z_scope.
+
+(* ===== clause 1: the reported descriptions rebuild an equal specification; equal => equal hashes ===== *)
+
+(* every depth, every well-lexed foreground (any number, order and repetition of parts) and background:
+   if the constructor accepts, foreground and background are reported without an exception and
+   constructing from exactly what they report gives the same packed value (so also the same
+   descriptions again: parsing a description is idempotent) *)
+Theorem attrspec_roundtrip :
+  forall D fg bg v,
+    Forall (wf_part (mode_of D)) fg -> wf_desc (mode_of D) bg -> attrspec_new fg bg D = ROk v ->
+    exists f b, foreground v = Ok f /\ background v = Ok b /\
+      Forall (wf_part (mode_of D)) (parts_of_foreground f) /\ wf_desc (mode_of D) b /\
+      attrspec_new (parts_of_foreground f) b D = ROk v.
+Proof. exact roundtrip. Qed.
+Print Assumptions attrspec_roundtrip.
+
+(* parse o describe o parse = parse for the three parsers; 256 and 88: complete sweeps of
+   h0..h255 / #000..#fff / g0..g100 / g#00..g#ff (payloads outside these ranges are rejected, by
+   arithmetic); 2^24: arithmetic *)
+Theorem parse_desc_idempotent_256 :
+  forall d c, lexable d -> parse_color_256 d = Ok (Some c) ->
+    exists d', color_desc_256 c = Ok d' /\ parse_color_256 d' = Ok (Some c).
+Proof. exact parse_describe_256. Qed.
+Print Assumptions parse_desc_idempotent_256.
+
+Theorem parse_desc_idempotent_88 :
+  forall d c, lexable d -> parse_color_88 d = Ok (Some c) ->
+    exists d', color_desc_88 c = Ok d' /\ parse_color_88 d' = Ok (Some c).
+Proof. exact parse_describe_88. Qed.
+Print Assumptions parse_desc_idempotent_88.
+
+Theorem parse_desc_idempotent_true :
+  forall d c, lexable d -> (match d with DTrue n => n < 16777216 | DCube n => 0 <= n | _ => True end) ->
+    parse_color_true d = Ok (Some c) ->
+    exists d', color_desc_true c = Ok d' /\ parse_color_true d' = Ok (Some c).
+Proof. exact parse_describe_true. Qed.
+Print Assumptions parse_desc_idempotent_true.
+
+Theorem true_roundtrip :
+  forall n, 0 <= n < 16777216 ->
+    color_desc_true n = Ok (DTrue n) /\ parse_color_true (DTrue n) = Ok (Some n).
+Proof. exact ColoursTables.true_roundtrip. Qed.
+Print Assumptions true_roundtrip.
+
 Theorem eq_hash : forall a b, spec_eq a b = true -> spec_hash a = spec_hash b.
 Proof. intros a b H. apply Z.eqb_eq in H. now subst. Qed.
 Print Assumptions eq_hash.
+
+(* the settings that are reported are exactly the settings that were given, and the order of the
+   comma separated parts is irrelevant *)
+Theorem settings_reported :
+  forall D fg bg v s,
+    Forall (wf_part (mode_of D)) fg -> wf_desc (mode_of D) bg -> attrspec_new fg bg D = ROk v ->
+    attr_setting s v = has_setting s fg.
+Proof. exact settings_preserved. Qed.
+Print Assumptions settings_reported.
+
+Theorem parts_order_irrelevant :
+  forall D fg fg' bg v,
+    Forall (wf_part (mode_of D)) fg -> wf_desc (mode_of D) bg -> Permutation fg fg' ->
+    attrspec_new fg bg D = ROk v -> attrspec_new fg' bg D = ROk v.
+Proof. exact order_irrelevant. Qed.
+Print Assumptions parts_order_irrelevant.
+
+(* ===== clause 2: nearest palette entry, exact palette values preserved ===== *)
+
+(* the four lookup tables built by _value_lookup_table: for every v < 256 the entry is the index of a
+   step that minimises |step - v| *)
+Theorem nearest_cube_256 :
+  forall v, 0 <= v < 256 -> exists k s, nthz CUBE_256_LOOKUP v = Some k /\ nthz CUBE_STEPS_256 k = Some s /\
+    is_nearest CUBE_STEPS_256 v s.
+Proof. exact (lookup_ok_spec _ _ 256 cube_256_lookup_sweep). Qed.
+Print Assumptions nearest_cube_256.
+Theorem nearest_gray_256 :
+  forall v, 0 <= v < 256 -> exists k s, nthz GRAY_256_LOOKUP v = Some k /\ nthz gray_levels_256 k = Some s /\
+    is_nearest gray_levels_256 v s.
+Proof. exact (lookup_ok_spec _ _ 256 gray_256_lookup_sweep). Qed.
+Print Assumptions nearest_gray_256.
+Theorem nearest_cube_88 :
+  forall v, 0 <= v < 256 -> exists k s, nthz CUBE_88_LOOKUP v = Some k /\ nthz CUBE_STEPS_88 k = Some s /\
+    is_nearest CUBE_STEPS_88 v s.
+Proof. exact (lookup_ok_spec _ _ 256 cube_88_lookup_sweep). Qed.
+Print Assumptions nearest_cube_88.
+Theorem nearest_gray_88 :
+  forall v, 0 <= v < 256 -> exists k s, nthz GRAY_88_LOOKUP v = Some k /\ nthz gray_levels_88 k = Some s /\
+    is_nearest gray_levels_88 v s.
+Proof. exact (lookup_ok_spec _ _ 256 gray_88_lookup_sweep). Qed.
+Print Assumptions nearest_gray_88.
+
+(* exact palette values are preserved: looking up a step gives that step *)
+Theorem exact_steps_preserved :
+  (forall j, 0 <= j < 6 -> exists s, nthz CUBE_STEPS_256 j = Some s /\ nthz CUBE_256_LOOKUP s = Some j) /\
+  (forall j, 0 <= j < 26 -> exists s, nthz gray_levels_256 j = Some s /\ nthz GRAY_256_LOOKUP s = Some j) /\
+  (forall j, 0 <= j < 4 -> exists s, nthz CUBE_STEPS_88 j = Some s /\ nthz CUBE_88_LOOKUP s = Some j) /\
+  (forall j, 0 <= j < 10 -> exists s, nthz gray_levels_88 j = Some s /\ nthz GRAY_88_LOOKUP s = Some j).
+Proof.
+  destruct lookup_exact_sweeps as [A [B [C D]]].
+  exact (conj (lookup_exact_spec _ _ 6 A) (conj (lookup_exact_spec _ _ 26 B)
+        (conj (lookup_exact_spec _ _ 4 C) (lookup_exact_spec _ _ 10 D)))).
+Qed.
+Print Assumptions exact_steps_preserved.
+
+(* string level: '#rgb' (digit d = 8-bit value 17 d) is parsed to a palette entry each of whose
+   components is a nearest cube step; 'g#XX' and 'gNN' (NN percent = int_scale(NN,101,256)) to an entry
+   whose gray level is nearest among the gray ramp plus black and white *)
+Theorem cube_spec_nearest_256 :
+  forall r g b, 0 <= r < 16 -> 0 <= g < 16 -> 0 <= b < 16 ->
+  exists c R G B, parse_color_256 (DCube (r * 256 + g * 16 + b)) = Ok (Some c) /\ 0 <= c < zlen COLOR_VALUES_256 /\
+    rgb_of COLOR_VALUES_256 c = (R, G, B) /\
+    is_nearest CUBE_STEPS_256 (17 * r) R /\ is_nearest CUBE_STEPS_256 (17 * g) G /\ is_nearest CUBE_STEPS_256 (17 * b) B.
+Proof. exact (cube_parse_spec _ _ _ cube_parse_256_sweep). Qed.
+Print Assumptions cube_spec_nearest_256.
+Theorem cube_spec_nearest_88 :
+  forall r g b, 0 <= r < 16 -> 0 <= g < 16 -> 0 <= b < 16 ->
+  exists c R G B, parse_color_88 (DCube (r * 256 + g * 16 + b)) = Ok (Some c) /\ 0 <= c < zlen COLOR_VALUES_88 /\
+    rgb_of COLOR_VALUES_88 c = (R, G, B) /\
+    is_nearest CUBE_STEPS_88 (17 * r) R /\ is_nearest CUBE_STEPS_88 (17 * g) G /\ is_nearest CUBE_STEPS_88 (17 * b) B.
+Proof. exact (cube_parse_spec _ _ _ cube_parse_88_sweep). Qed.
+Print Assumptions cube_spec_nearest_88.
+Theorem gray_spec_nearest_256 :
+  (forall v, 0 <= v < 256 -> exists c s, parse_color_256 (DGrayHex v) = Ok (Some c) /\ 0 <= c < zlen COLOR_VALUES_256 /\
+     rgb_of COLOR_VALUES_256 c = (s, s, s) /\ is_nearest gray_levels_256 v s) /\
+  (forall n, 0 <= n < 101 -> exists c s, parse_color_256 (DGrayDec n) = Ok (Some c) /\ 0 <= c < zlen COLOR_VALUES_256 /\
+     rgb_of COLOR_VALUES_256 c = (s, s, s) /\ is_nearest gray_levels_256 (pct n) s).
+Proof.
+  exact (conj (gray_parse_spec _ _ _ _ _ 256 gray_hex_256_sweep) (gray_parse_spec _ _ _ _ _ 101 gray_dec_256_sweep)).
+Qed.
+Print Assumptions gray_spec_nearest_256.
+Theorem gray_spec_nearest_88 :
+  (forall v, 0 <= v < 256 -> exists c s, parse_color_88 (DGrayHex v) = Ok (Some c) /\ 0 <= c < zlen COLOR_VALUES_88 /\
+     rgb_of COLOR_VALUES_88 c = (s, s, s) /\ is_nearest gray_levels_88 v s) /\
+  (forall n, 0 <= n < 101 -> exists c s, parse_color_88 (DGrayDec n) = Ok (Some c) /\ 0 <= c < zlen COLOR_VALUES_88 /\
+     rgb_of COLOR_VALUES_88 c = (s, s, s) /\ is_nearest gray_levels_88 (pct n) s).
+Proof.
+  exact (conj (gray_parse_spec _ _ _ _ _ 256 gray_hex_88_sweep) (gray_parse_spec _ _ _ _ _ 101 gray_dec_88_sweep)).
+Qed.
+Print Assumptions gray_spec_nearest_88.
+
+(* '#rrggbb' below 2^24 colours degrades through its high nibbles to the cube *)
+Theorem true_colour_degrades :
+  forall n, 0 <= n < 16777216 ->
+    parse_color_88 (DTrue n) = parse_color_88 (DCube (hi_nibbles n)) /\
+    parse_mode M256 (DTrue n) = parse_color_256 (DCube (hi_nibbles n)).
+Proof. intros n H. exact (conj (degrade_88 n H) (degrade_256 n H)). Qed.
+Print Assumptions true_colour_degrades.
+
+(* ===== clause 3: RGB components match the xterm colour tables ===== *)
+
+(* the tables themselves against the closed forms: basic colours of XTerm-col.ad, cube 0 | 55+40k,
+   gray 8+10k (256colres.h); cube 00 8b cd ff, gray 2e 5c 73 8b a2 b9 d0 e7 (88colres.h) *)
+Theorem rgb_tables_match_xterm :
+  (forall n, 0 <= n < 256 -> get_index COLOR_VALUES_256 n = Ok (xterm256 n)) /\
+  (forall n, 0 <= n < 88 -> get_index COLOR_VALUES_88 n = Ok (xterm88 n)) /\
+  zlen COLOR_VALUES_256 = 256 /\ zlen COLOR_VALUES_88 = 88.
+Proof. exact (conj color_values_256_xterm (conj color_values_88_xterm lengths_256_88)). Qed.
+Print Assumptions rgb_tables_match_xterm.
+
+(* get_rgb_values of any constructed specification, in terms of what it reports: None for 'default',
+   the xterm basic colour for a basic name, the three bytes for '#rrggbb', the xterm palette entry for
+   the palette number that the reported description parses to -- PARTIAL: proved when no basic colour
+   stands beside a true colour *)
+Theorem rgb_matches_xterm_unmixed :
+  forall D fg bg v fd fs bd,
+    Forall (wf_part (mode_of D)) fg -> wf_desc (mode_of D) bg -> attrspec_new fg bg D = ROk v ->
+    foreground v = Ok (fd, fs) -> background v = Ok bd ->
+    (attr_colors v = TRUE_DEPTH -> is_basic_desc fd = false /\ is_basic_desc bd = false) ->
+    get_rgb_values v = Ok (expected_rgb (attr_colors v) fd, expected_rgb (attr_colors v) bd).
+Proof. exact ColoursRgb.rgb_matches_xterm_unmixed. Qed.
+Print Assumptions rgb_matches_xterm_unmixed.
+
+(* the full statement (no premise) is FALSE of the code as it is: witness '#123456' on 'dark red' *)
+Definition rgb_matches_xterm_full : Prop := ColoursRgb.rgb_matches_xterm_full.
+Theorem rgb_matches_xterm_refuted :
+  exists D fg bg v fd fs bd,
+    Forall (wf_part (mode_of D)) fg /\ wf_desc (mode_of D) bg /\ attrspec_new fg bg D = ROk v /\
+    foreground v = Ok (fd, fs) /\ background v = Ok bd /\
+    get_rgb_values v <> Ok (expected_rgb (attr_colors v) fd, expected_rgb (attr_colors v) bd).
+Proof.
+  exists TRUE_DEPTH, [PCol (DTrue 1193046)], (DBasic 1).
+  eexists. eexists. eexists. eexists.
+  split; [constructor; [cbn; lia|constructor]|]. split; [cbn; lia|].
+  split; [vm_compute; reflexivity|]. split; [vm_compute; reflexivity|]. split; [vm_compute; reflexivity|].
+  vm_compute. discriminate.
+Qed.
+Print Assumptions rgb_matches_xterm_refuted.
+
+(* get_rgb_values never raises on a constructed specification *)
+Theorem rgb_never_raises :
+  forall D fg bg v,
+    Forall (wf_part (mode_of D)) fg -> wf_desc (mode_of D) bg -> attrspec_new fg bg D = ROk v ->
+    exists r, get_rgb_values v = Ok r.
+Proof. exact get_rgb_total. Qed.
+Print Assumptions rgb_never_raises.
+
+(* ===== clause 4: the reported depth ===== *)
+
+(* not above the declared depth (no hypothesis on the input at all) *)
+Theorem colors_le_declared :
+  forall D fg bg v, attrspec_new fg bg D = ROk v -> attr_colors v <= D /\ valid_depth D = true.
+Proof. exact ColoursMore.colors_le_declared. Qed.
+Print Assumptions colors_le_declared.
+
+(* minimal: no smaller depth expresses the specification, whatever strings one tries *)
+Theorem colors_minimal :
+  forall D fg bg v, attrspec_new fg bg D = ROk v ->
+    forall d fg' bg', d < attr_colors v -> attrspec_new fg' bg' d <> ROk v.
+Proof. exact ColoursMore.colors_minimal. Qed.
+Print Assumptions colors_minimal.
+
+(* the reported depth does express the specification -- PARTIAL: proved unless the specification was
+   declared with 2^24 colours and uses no true colour *)
+Theorem colors_expresses_partial :
+  forall D fg bg v,
+    Forall (wf_part (mode_of D)) fg -> wf_desc (mode_of D) bg -> attrspec_new fg bg D = ROk v ->
+    (D = TRUE_DEPTH -> attr_colors v = TRUE_DEPTH) ->
+    exists f b, foreground v = Ok f /\ background v = Ok b /\
+      attrspec_new (parts_of_foreground f) b (attr_colors v) = ROk v.
+Proof. exact colors_expresses_when. Qed.
+Print Assumptions colors_expresses_partial.
+
+(* the full statement is FALSE of the code as it is: 'dark red' declared with 2^24 colours reports
+   depth 16, and 'dark red' at depth 16 is a different packed value (the _HIGH_TRUE_COLOR marker) *)
+Definition colors_expresses_full : Prop :=
+  forall D fg bg v,
+    Forall (wf_part (mode_of D)) fg -> wf_desc (mode_of D) bg -> attrspec_new fg bg D = ROk v ->
+    exists f b, foreground v = Ok f /\ background v = Ok b /\
+      attrspec_new (parts_of_foreground f) b (attr_colors v) = ROk v.
+Theorem colors_expresses_refuted :
+  exists D fg bg v f b,
+    Forall (wf_part (mode_of D)) fg /\ wf_desc (mode_of D) bg /\ attrspec_new fg bg D = ROk v /\
+    foreground v = Ok f /\ background v = Ok b /\
+    attrspec_new (parts_of_foreground f) b (attr_colors v) <> ROk v.
+Proof.
+  exists TRUE_DEPTH, [PCol (DBasic 1)], DDefault. eexists. eexists. eexists.
+  split; [constructor; [cbn; lia|constructor]|]. split; [exact I|].
+  split; [vm_compute; reflexivity|]. split; [vm_compute; reflexivity|]. split; [vm_compute; reflexivity|].
+  vm_compute. discriminate.
+Qed.
+Print Assumptions colors_expresses_refuted.
+
+(* ===== clause 5: rejection only with the library's own error ===== *)
+
+Theorem reject_is_attrspecerror :
+  forall D fg bg e w,
+    Forall (wf_part (mode_of D)) fg -> wf_desc (mode_of D) bg ->
+    attrspec_new fg bg D = RErr e w -> e = AttrSpecError /\ 1 <= w <= 6.
+Proof.
+  intros D fg bg e w W Wb E.
+  exact (conj (reject_only_attrspecerror D fg bg e w W Wb E) (reject_reasons D fg bg e w W Wb E)).
+Qed.
+Print Assumptions reject_is_attrspecerror.
+
+(* duplicated settings, several colours, unknown colours, colours beyond the depth are rejected *)
+Example rejected_inputs :
+  attrspec_new [PSet SBold; PCol (DBasic 3); PSet SBold] DDefault 256 = RErr AttrSpecError 1 /\
+  attrspec_new [PCol (DBasic 3); PCol DDefault] DDefault 256 = RErr AttrSpecError 3 /\
+  attrspec_new [PCol DBad] DDefault 256 = RErr AttrSpecError 2 /\
+  attrspec_new [PCol DDefault] (DH 256) 256 = RErr AttrSpecError 4 /\
+  attrspec_new [PCol (DH 88)] DDefault 88 = RErr AttrSpecError 2 /\
+  attrspec_new [PCol (DH 5)] DDefault 16 = RErr AttrSpecError 5 /\
+  attrspec_new [PCol (DBasic 5)] DDefault 1 = RErr AttrSpecError 5 /\
+  attrspec_new [PCol DDefault] DDefault 255 = RErr AttrSpecError 6.
+Proof. vm_compute. repeat split. Qed.
+
+(* ===== non-vacuity ===== *)
+Example roundtrip_somewhere :
+  (* AttrSpec('#ddb, bold , underline', '#004', 256) -> ('#dda,bold,underline', '#006') *)
+  let fg := [PCol (DCube 3547); PSet SBold; PSet SUnderline] in
+  Forall (wf_part (mode_of 256)) fg /\ wf_desc (mode_of 256) (DCube 4) /\
+  exists v, attrspec_new fg (DCube 4) 256 = ROk v /\
+    foreground v = Ok (DCube 3546, [true; false; false; false; true; false]) /\
+    background v = Ok (DCube 6) /\ attr_colors v = 256 /\
+    get_rgb_values v = Ok (Some (215, 215, 175), Some (0, 0, 95)).
+Proof.
+  split; [constructor; [cbn; split; [lia|discriminate]|repeat constructor]|]. split; [cbn; split; [lia|discriminate]|].
+  eexists. split; [vm_compute; reflexivity|]. vm_compute. repeat split.
+Qed.
+
+Example degrade_somewhere :
+  parse_color_88 (DTrue 14540253) = Ok (Some 58)            (* '#dddddd' at 88 colours -> '#ccc' *)
+  /\ parse_mode M256 (DTrue 1193046) = Ok (Some 23)           (* '#123456' at 256 colours *)
+  /\ parse_color_256 (DGrayHex 246) = Ok (Some 255)           (* g#f6 -> gray 238, not white *)
+  /\ parse_color_true (DH 5) = Ok (Some 13435085).            (* 'h5' at 2^24 colours -> #cd00cd *)
+Proof. vm_compute. repeat split. Qed.
